@@ -19,6 +19,9 @@ pub struct Client {
     padding: Arc<PaddingFactory>,
     session_pool: Arc<SessionPool>,
     pool_config: SessionPoolConfig,
+    // md5 of the process-wide default scheme when this client was created; if the default
+    // differs later, the server has pushed a new scheme in the meantime
+    initial_default_md5: String,
 }
 
 impl Client {
@@ -62,6 +65,7 @@ impl Client {
             padding,
             session_pool,
             pool_config,
+            initial_default_md5: PaddingFactory::default().md5().to_string(),
         }
     }
 
@@ -287,11 +291,21 @@ impl Client {
             })?;
         tracing::debug!("[Client] TLS handshake successful");
 
+        // A scheme pushed by the server (it replaces the process-wide default) is used for
+        // every session opened afterwards: otherwise each new session would announce the old
+        // md5 again and the server would have to push the scheme once per session.
+        let current_default = PaddingFactory::default();
+        let padding = if current_default.md5() != self.initial_default_md5 {
+            current_default
+        } else {
+            self.padding.clone()
+        };
+
         // Send authentication
         // Split TLS stream into reader and writer
         let (reader, mut writer) = tokio::io::split(tls_stream);
         tracing::trace!("[Client] Sending authentication");
-        send_authentication(&mut writer, &self.password_hash, &self.padding).await?;
+        send_authentication(&mut writer, &self.password_hash, &padding).await?;
         tracing::debug!("[Client] Authentication sent successfully");
 
         // Create session with reader and writer
@@ -302,7 +316,7 @@ impl Client {
         let session = Arc::new(Session::new_client(
             reader,
             writer,
-            self.padding.clone(),
+            padding,
             Some(heartbeat_config),
         ));
 
